@@ -25,6 +25,11 @@ pub enum REv {
     Error,
     TimedOut,
     Eof,
+    /// the reader takes this many milliseconds before it goes on to the next event (a reply trickling in)
+    Sleep(u64),
+    /// the read fails with an `io::Error` of kind InvalidData whose payload is the library's own `FrameError`
+    /// (a transport layered on another frame stream hands such errors up)
+    ErrorWithFrameError,
     /// the reader itself reads and writes a frame on another stream before it answers (a sniffer, a loop-back
     /// port driving its peer): `Frame::read` / `Frame::write` are re-entered on this thread; then "interrupted"
     Nested,
@@ -34,6 +39,8 @@ pub enum WEv {
     Accept(usize),
     Interrupted,
     Error,
+    /// the write fails with an `io::Error` of kind InvalidData whose payload is the library's own `FrameError`
+    ErrorWithFrameError,
     /// from now on the port's `flush()` fails (the library never needs flush; one that calls it must not
     /// let its failure change anything that was promised about the write that already happened)
     FlushFails,
@@ -47,6 +54,13 @@ pub fn parse_revs(toks: &[&str]) -> Option<VecDeque<REv>> {
             "t" => Some(REv::TimedOut),
             "z" => Some(REv::Eof),
             "n" => Some(REv::Nested),
+            "x" => Some(REv::ErrorWithFrameError),
+            _ if t.starts_with("s:") => t[2..].parse().ok().map(REv::Sleep),
+            _ if t.starts_with("r:") => {
+                // r:LEN:BYTE — LEN copies of one byte, without spelling them out in hex
+                let (n, b) = t[2..].split_once(':')?;
+                Some(REv::Data(vec![u8::from_str_radix(b, 16).ok()?; n.parse().ok()?]))
+            }
             _ => t.strip_prefix("d:").and_then(parse_hex).map(REv::Data),
         })
         .collect()
@@ -57,11 +71,17 @@ pub fn parse_wevs(toks: &[&str]) -> Option<VecDeque<WEv>> {
             "i" => Some(WEv::Interrupted),
             "e" => Some(WEv::Error),
             "F" => Some(WEv::FlushFails),
+            "x" => Some(WEv::ErrorWithFrameError),
             _ => t.strip_prefix("a:").and_then(|n| n.parse().ok()).map(WEv::Accept),
         })
         .collect()
 }
 
+thread_local! {
+    /// when set, the latency applies to every write call and to every read call that starts a new line (a port
+    /// that is a little slow all the time) instead of to the first call only
+    pub static PORT_LATENCY_EVERY: std::cell::Cell<bool> = const { std::cell::Cell::new(false) };
+}
 thread_local! {
     /// (write, read) latency in ms applied inside the first write / first read call of a port: a slow
     /// line or a sign that takes its time to answer (used by the `serialts` cases of C18).
@@ -70,6 +90,10 @@ thread_local! {
 
 #[derive(Debug)]
 pub struct ScriptReader {
+    pub at_line_start: bool,
+    /// the data event being served and how far it has been consumed (no copying of the remainder per call)
+    cur: Vec<u8>,
+    cur_pos: usize,
     pub events: VecDeque<REv>,
     pub calls: usize,
     pub times: Vec<(Instant, Instant)>,
@@ -77,13 +101,16 @@ pub struct ScriptReader {
 impl ScriptReader {
     pub fn new(events: VecDeque<REv>) -> Self {
         ScriptReader {
+            at_line_start: true,
+            cur: vec![],
+            cur_pos: 0,
             events,
             calls: 0,
             times: vec![],
         }
     }
     pub fn rest(&self) -> Vec<u8> {
-        let mut v = vec![];
+        let mut v = self.cur[self.cur_pos..].to_vec();
         for e in &self.events {
             if let REv::Data(d) = e {
                 v.extend_from_slice(d);
@@ -96,18 +123,33 @@ impl Read for ScriptReader {
     fn read(&mut self, buf: &mut [u8]) -> io::Result<usize> {
         let t0 = Instant::now();
         self.calls += 1;
-        if self.calls == 1 {
+        if self.calls == 1 || (PORT_LATENCY_EVERY.with(|c| c.get()) && self.at_line_start) {
             let ms = PORT_LATENCY.with(|c| c.get()).1;
             if ms > 0 {
                 std::thread::sleep(Duration::from_millis(ms));
             }
         }
         let r = loop {
+            if self.cur_pos < self.cur.len() {
+                if buf.is_empty() {
+                    break Ok(0);
+                }
+                let k = (self.cur.len() - self.cur_pos).min(buf.len());
+                buf[..k].copy_from_slice(&self.cur[self.cur_pos..self.cur_pos + k]);
+                self.cur_pos += k;
+                self.at_line_start = buf[k - 1] == b'\n';
+                break Ok(k);
+            }
             match self.events.pop_front() {
                 None | Some(REv::Eof) => break Ok(0),
                 Some(REv::Interrupted) => break Err(io::Error::new(io::ErrorKind::Interrupted, "scripted interrupt")),
                 Some(REv::Error) => break Err(io::Error::new(io::ErrorKind::Other, "scripted error")),
                 Some(REv::TimedOut) => break Err(io::Error::new(io::ErrorKind::TimedOut, "scripted timeout")),
+                Some(REv::Sleep(ms)) => {
+                    std::thread::sleep(Duration::from_millis(ms));
+                    continue;
+                }
+                Some(REv::ErrorWithFrameError) => break Err(io::Error::new(io::ErrorKind::InvalidData, Frame::from_bytes(b"not a frame").unwrap_err())),
                 Some(REv::Nested) => {
                     let mut inner = ScriptReader::new(VecDeque::from(vec![REv::Data(b":01000302FFFB\r\n".to_vec())]));
                     let f = Frame::read(&mut inner).expect("nested read of a valid frame");
@@ -121,16 +163,9 @@ impl Read for ScriptReader {
                     if d.is_empty() {
                         continue;
                     }
-                    if buf.is_empty() {
-                        self.events.push_front(REv::Data(d));
-                        break Ok(0);
-                    }
-                    let k = d.len().min(buf.len());
-                    buf[..k].copy_from_slice(&d[..k]);
-                    if k < d.len() {
-                        self.events.push_front(REv::Data(d[k..].to_vec()));
-                    }
-                    break Ok(k);
+                    self.cur = d;
+                    self.cur_pos = 0;
+                    continue;
                 }
             }
         };
@@ -162,7 +197,7 @@ impl Write for ScriptWriter {
     fn write(&mut self, buf: &[u8]) -> io::Result<usize> {
         let t0 = Instant::now();
         self.calls += 1;
-        if self.calls == 1 {
+        if self.calls == 1 || PORT_LATENCY_EVERY.with(|c| c.get()) {
             let ms = PORT_LATENCY.with(|c| c.get()).0;
             if ms > 0 {
                 std::thread::sleep(Duration::from_millis(ms));
@@ -179,6 +214,7 @@ impl Write for ScriptWriter {
             }
             Some(WEv::Interrupted) => Err(io::Error::new(io::ErrorKind::Interrupted, "scripted interrupt")),
             Some(WEv::Error) => Err(io::Error::new(io::ErrorKind::Other, "scripted error")),
+            Some(WEv::ErrorWithFrameError) => Err(io::Error::new(io::ErrorKind::InvalidData, Frame::from_bytes(b"not a frame").unwrap_err())),
             Some(WEv::Accept(n)) => {
                 let k = n.min(buf.len());
                 self.delivered.extend_from_slice(&buf[..k]);
@@ -495,7 +531,13 @@ pub fn io_reads(n: usize, evs: VecDeque<REv>) -> String {
 pub fn io_write(f: &Frame<'_>, evs: VecDeque<WEv>) -> String {
     let mut wr = ScriptWriter::new(evs);
     let r = f.write(&mut wr);
-    format!("{} {}", if r.is_ok() { "ok" } else { "err" }, to_hex(&wr.delivered))
+    // ("I/O failures surface as an I/O error": any other class of error for a failed write is shown as such)
+    let res = match &r {
+        Ok(()) => "ok".to_string(),
+        Err(flipdot_core::FrameError::Io { .. }) => "err".to_string(),
+        Err(e) => format!("err-not-io:{}", show_frame_err(e).replace(' ', "_")),
+    };
+    format!("{} {}", res, to_hex(&wr.delivered))
 }
 
 pub struct SerialObs {
